@@ -300,7 +300,8 @@ def load_known():
 
 def save_replay(ctx, name, obj):
     os.makedirs(REPLAYS, exist_ok=True)
-    p = os.path.join(REPLAYS, "%s-%s-seed%d.json" % (ctx.prop, name, ctx.seed))
+    k = len(ctx.violations)
+    p = os.path.join(REPLAYS, "%s-%s-seed%d%s.json" % (ctx.prop, name, ctx.seed, "" if k == 0 else "-%d" % k))
     obj = dict(obj)
     obj.setdefault("property", ctx.prop)
     obj.setdefault("seed", ctx.seed)
